@@ -12,7 +12,7 @@ for log in sorted(glob.glob(res_dir + '/*.log')):
     if not m: continue
     prop, n = m.group(1), m.group(2)
     tag = os.path.basename(log)[:-4]            # e.g. C01-out-1 / C01-out2-1
-    mm = re.match(r'([CXYZWVUT]\d+)-(out[23]?)-(\d+)$', tag)
+    mm = re.match(r'([CXYZWVUTS]\d+)-(out[23]?)-(\d+)$', tag)
     if not mm: continue
     rnd = {'out': 'r1', 'out2': 'r2', 'out3': 'r3'}[mm.group(2)]
     if mm.group(1).startswith('X'):
@@ -29,6 +29,8 @@ for log in sorted(glob.glob(res_dir + '/*.log')):
         rnd = 'r9' + mm.group(1).lower()
     if mm.group(1).startswith('T'):
         rnd = 'r10' + mm.group(1).lower()
+    if mm.group(1).startswith('S'):
+        rnd = 'r11' + mm.group(1).lower()
     src = '/tmp/mut/%s-%s/%s' % (mm.group(1), mm.group(2), mm.group(3))
     if not os.path.exists(src + '/patch.diff'): continue
     suite = re.search(r'suite_with_change=\[(.*?)\]', txt)
